@@ -31,7 +31,7 @@ ASSUMPTIONS = [
 ]
 MANDATORY = ["take_axis:negative-position", "sort_axis", "sort_axis:key", "sort_axis:dict", "take_axis:label", "take_axis:position", "take_axis:repeats", "compress_axis",
              "compress:nd", "dropna:minvalid", "dropna:default", "dropna:1d", "dropna:partial", "fillna", "fillna:inplace", "setna:value",
-             "setna:list", "setna:mask", "setna:int-data", "axis:not-first", "labels:shuf", "labels:s"]
+             "setna:list", "setna:mask", "setna:list+mask", "setna:int-data", "axis:not-first", "labels:shuf", "labels:s"]
 
 
 def budget(tier):
@@ -85,13 +85,19 @@ def case_st(draw):
         p = {"value": draw(st.sampled_from([0.0, -1, 7.5, "missing"])), "inplace": draw(st.booleans())}
     elif op == "setna":
         present = [v for v in vals if v != "NaN"]
-        form = draw(st.sampled_from(["value", "list", "mask", "mask-dimarray", "absent"]))
+        form = draw(st.sampled_from(["value", "list", "mask", "mask-dimarray", "absent", "list+mask"]))
         if form == "value" and present:
             p["value"] = draw(st.sampled_from(present))
         elif form == "list" and present:
             p["value"] = draw(st.lists(st.sampled_from(present + [99]), min_size=1, max_size=3))
         elif form in ("mask", "mask-dimarray"):
             p["mask"] = draw(st.lists(st.booleans(), min_size=ncell, max_size=ncell))
+        elif form == "list+mask":
+            # the docstring's a.setna([-99, a > 1]): values and boolean masks (ndarray / DimArray) in one sequence
+            p["value"] = draw(st.lists(st.sampled_from(present + [99]), min_size=0, max_size=2))
+            p["masks"] = [draw(st.lists(st.booleans(), min_size=ncell, max_size=ncell)) for _ in range(draw(st.integers(1, 2)))]
+            p["mask_as"] = draw(st.sampled_from(["ndarray", "dimarray"]))
+            p["mask_first"] = draw(st.booleans())
         else:
             p["value"] = 99
         p["form"] = form
@@ -262,7 +268,15 @@ def run_case(case):
     elif op == "setna":
         exp = np.asarray(vals, dtype=object).copy()
         form = p["form"]
-        if "mask" in p:
+        if "masks" in p:
+            masks = [np.array(mk, dtype=bool).reshape(vals.shape) for mk in p["masks"]]
+            mask = np.zeros(vals.shape, dtype=bool)
+            for idx in itertools.product(*[range(s) for s in vals.shape]):
+                mask[idx] = any((not core.isnan(exp[idx])) and exp[idx] == x for x in p["value"]) or any(mk[idx] for mk in masks)
+            margs = [mk if p["mask_as"] == "ndarray" else da.DimArray(mk, axes=[x.copy() for x in a.axes]) for mk in masks]
+            arg = (margs + list(p["value"])) if p["mask_first"] else (list(p["value"]) + margs)
+            cl.add("setna:list+mask")
+        elif "mask" in p:
             mask = np.array(p["mask"], dtype=bool).reshape(vals.shape)
             arg = mask if form == "mask" else da.DimArray(mask, axes=[x.copy() for x in a.axes])
             cl.add("setna:mask")
